@@ -206,6 +206,9 @@ def check_literals(language, dtype, extra=()):
         except ValueError:
             bad.append((v, t, "does not read as a number"))
             continue
+        if re.fullmatch(r"\(?[-+]?\d+\)?", t):
+            bad.append((v, t, "an integer constant (integer arithmetic in the emitted expression), not a floating literal"))
+            continue
         u = cparse.ulps(v, back)
         worst = max(worst, u)
         if u > 1.0:
